@@ -262,7 +262,7 @@ def check_guard(prog, r4):
     last_assign = -1
     for i, st in enumerate(nt.body):
         txt = U(st)
-        if isinstance(st, ast.If) and any(isinstance(s, ast.Raise) for s in st.body) and "charge_err" in U(st.test):
+        if isinstance(st, ast.If) and any(isinstance(s, ast.Raise) for s in st.body) and ("charge_err" in U(st.test) or "noninteger_charge(" in U(st.test)):
             gidx = i
         if ".ffcharge =" in txt or "apply_force_field(" in txt or "assign_parameters(" in txt:
             last_assign = i
@@ -290,7 +290,8 @@ def _check_guard(prog, r4):
                         and any(isinstance(tg, ast.Name) and tg.id in tnames for tg in prev.targets):
                     guard = (idx, st, prev)
                     break
-            if isinstance(st.test, ast.Call) and U(st.test.func).split(".")[-1] == "noninteger_charge":
+            test_ = st.test.value if isinstance(st.test, ast.NamedExpr) else st.test   # if (err := noninteger_charge(total)): raise
+            if isinstance(test_, ast.Call) and U(test_.func).split(".")[-1] == "noninteger_charge":
                 guard = (idx, st, st)
         if guard:
             break
@@ -316,7 +317,7 @@ def _check_guard(prog, r4):
         p = getattr(p, "_parent", None)
     r4.add("guard|raises", uncond and not in_try, "the guard body raises and is not inside a try block", where)
     # what is summed: the argument must accumulate residue.charge over all biomolecule.residues
-    call = assign.value if isinstance(assign, ast.Assign) else ifst.test
+    call = assign.value if isinstance(assign, ast.Assign) else (ifst.test.value if isinstance(ifst.test, ast.NamedExpr) else ifst.test)
     arg = call.args[0] if call.args else None
     ok_sum = False
     detail = "argument of noninteger_charge is not a plain accumulator name"
